@@ -109,7 +109,8 @@ def grid_shape(g):
     return shape[::-1] if g.get("lay") and g["lay"]["p"][0] else shape   # the producer's data shape
 
 
-FORMS = ["shaped", "timeaxis", "flat", "list", "wrongsize", "wrongshape", "quantity", "foreign", "incompatible", "shared", "sharedview"]
+FORMS = ["shaped", "timeaxis", "flat", "list", "wrongsize", "wrongshape", "quantity", "foreign", "incompatible", "shared", "sharedview",
+         "maskedarr"]   # maskedarr: a masked array (one cell hidden) under the output's flexible mask; spilled, it takes the pickle path
 
 
 def gen_case(rng):
@@ -125,7 +126,7 @@ def gen_case(rng):
     for _ in range(n):
         if not pubs or rng.random() < 0.45:
             t = t + rng.choice([1, 2, 3, 5, 7, 9, 10]) * scale if pubs else t
-            form = rng.choices(FORMS, weights=[30, 10, 14, 8, 4, 4, 8, 8, 3, 4, 3])[0]
+            form = rng.choices(FORMS, weights=[30, 10, 14, 8, 4, 4, 8, 8, 3, 4, 3, 9])[0]
             if g["kind"] == "nogrid" and form == "wrongsize":
                 form = "shaped"  # NoGrid fixes the rank only
             pu = None
@@ -196,6 +197,13 @@ def payload(case, ev, prev_arr):
         if ev.get("punits") is not None:
             units = ev["punits"]
             obj = fm.UNITS.Quantity(arr, units)
+    elif form == "maskedarr":
+        arr = base.reshape(shp) if shp else np.array(base[0])
+        obj = arr
+        if size >= 2:
+            m = np.zeros(size, dtype=bool)
+            m[ev["val"] % size] = True
+            obj = np.ma.masked_array(arr.copy(), m.reshape(shp))
     elif form == "timeaxis":
         obj = arr = base.reshape([1] + shp)
     elif form == "flat":
@@ -276,19 +284,22 @@ def run_impl(case):
                 prev_origin = origin
                 # the producer's own array (what a later "shared" payload aliases); whether the *stored* array is that
                 # one or a converted copy is the model's / the oracle's business
-                prev_arr = arr if isinstance(arr, np.ndarray) and eff["form"] != "list" else None
+                prev_arr = arr if isinstance(arr, np.ndarray) and eff["form"] not in ("list", "maskedarr") else None
             except Exception as e:  # noqa
                 results.append({"err": err_class(e), "msg": str(e)[:120], "prev_in_ram": prev_in_ram, "eff": eff})
         else:
             mevents.append({"op": "pull", "t": ev["t"]})
             try:
                 v = inp.pull_data(T(ev["t"]))
-                mag = np.asarray(fm.data.get_magnitude(v))
+                mag = fm.data.get_magnitude(v)
+                if np.ma.isMaskedArray(mag):
+                    mag = np.where(np.ma.getmaskarray(mag), np.nan, np.ma.getdata(mag))   # hidden cells carry no value
+                mag = np.asarray(mag)
                 if case["grid"].get("crev") and mag.ndim == 3:
                     mag = mag.transpose(0, 2, 1)   # back to the producer's [x, y] indexing for the comparison
                 if case["grid"].get("lay") and mag.ndim == 3:
                     mag = to_producer_layout(case["grid"], mag)
-                results.append({"ok": {"shape": list(mag.shape), "data": [float(x) for x in mag.reshape(-1)],
+                results.append({"ok": {"shape": list(mag.shape), "data": [None if np.isnan(x) else float(x) for x in mag.reshape(-1)],
                                        "units": str(v.units)}})
             except Exception as e:  # noqa
                 results.append({"err": err_class(e), "msg": str(e)[:120]})
@@ -312,7 +323,7 @@ def compare(impl, model):
         if a["ok"]["shape"] != b["ok"]["shape"]:
             return {"event": i, "impl_shape": a["ok"]["shape"], "model_shape": b["ok"]["shape"]}
         for x, q in zip(a["ok"]["data"], b["ok"]["data"]):
-            if not close(x, q[0] / q[1]):
+            if x is not None and not close(x, q[0] / q[1]):
                 return {"event": i, "impl": a["ok"]["data"][:6], "model": b["ok"]["data"][:6]}
     return None
 
@@ -335,7 +346,7 @@ def oracle(case, impl):
                 org = r.get("origin") or {"val": ev["val"], "form": ev["form"]}
                 pubs.append((ev["t"], dict(ev, val=org["val"], layout=org["form"])))
             else:
-                if form in ("shaped", "timeaxis", "flat", "list", "quantity", "foreign") or \
+                if form in ("shaped", "timeaxis", "flat", "list", "quantity", "foreign", "maskedarr") or \
                         (form in ("shared", "sharedview") and is_conv(case, ev)):
                     return ("well-formed payloads must be accepted", {"event": ev, "got": r})
                 if r["err"] != "FinamDataError":
@@ -378,7 +389,10 @@ def oracle(case, impl):
                     arr = np.array(base, dtype=object).reshape(shp) if shp else np.array(base, dtype=object)
                 src_u = pev["punits"] if pev.get("punits") is not None else case["out_units"]
                 exp = [conv(src_u, case["in_units"], x) for x in arr.reshape(-1)]
-                if all(close(a, float(b)) for a, b in zip(got["data"], exp)):
+                hidden = [False] * len(exp)
+                if pev["layout"] == "maskedarr" and len(exp) >= 2:
+                    hidden[pev["val"] % len(exp)] = True   # (C order = the order of the producer's array)
+                if all((a is None) == h and (h or close(a, float(b))) for a, b, h in zip(got["data"], exp, hidden)):
                     ok_any = True
             if not ok_any:
                 return ("a pull returns the publication nearest to t, converted to the consumer's units",
